@@ -777,4 +777,37 @@ def c17_cases(tier, seed):
     return cases
 
 
+def c17_highlight_cases(tier, seed):
+    """helpers with state: the bracket highlighter remembers (bracket, offset) across keys; searches, recalls,
+    completions and undo replace the line under it"""
+    rng = random.Random(seed * 1801 + 31)
+    n = 800 if tier == "thorough" else 80
+    cases = []
+    pool = ["ls", "x", "(a)", "fn(b[1])", "é(", "print(1)", "a", "{[(", ")]}"]
+    for _ in range(n):
+        mode = rng.choice(["emacs", "emacs", "vi"])
+        keys = list(rng.choice(["print(1)", "f(a[1]){", "((x))", "a)b(", "é(日)", "[]", "x(", "(", "fo(o)"]))
+        for _ in range(rng.randint(2, 10)):
+            r = rng.random()
+            if r < 0.25:
+                keys.append(rng.choice(["Left", "Right", "Home", "End"]))
+            elif r < 0.45:
+                keys += ["C-r"] + [rng.choice(["l", "s", "x", "(", "a", "f", "C-r", "Backspace"]) for _ in range(rng.randint(1, 3))] + \
+                    [rng.choice(["C-g", "Left", "Esc", "End"])]
+            elif r < 0.6:
+                keys.append(rng.choice(["Up", "Down", "C-p", "C-n", "M-<", "M->"]) if mode == "emacs" else rng.choice(["Up", "Down"]))
+            elif r < 0.7:
+                keys += ["Tab", rng.choice(["Tab", "Esc", "Left"])]
+            elif r < 0.8:
+                keys.append(rng.choice(["C-_", "C-k", "C-u", "C-w", "Backspace"]))
+            else:
+                keys.append(rng.choice(["(", ")", "[", "]", "a", "é"]))
+        keys.append("Enter")
+        hist = [rng.choice(pool) for _ in range(rng.choice([1, 2, 4]))]
+        cases.append(Case(keys, mode=mode, history=hist, timeout=0, prompt="> ", helper=True, reads=2,
+                          cands=rng.sample(["(a)", "fo(o)", "print(", "x"], 2), completion=rng.choice(["circular", "list"]),
+                          validator=rng.choice(["none", "brackets"]), meta={"highlight": 1}, cols=rng.choice([80, 20])))
+    return cases
+
+
 STREAMS["junk"] = c17_cases
